@@ -60,24 +60,18 @@ fn available_for_bnb_after_reservations(
         .copied()
         .unwrap_or(Decimal::ZERO);
 
-    let available_before_same_day = buy_amount - already_reserved;
-    if available_before_same_day <= Decimal::ZERO {
-        return Decimal::ZERO;
-    }
-
     // Reserve shares for Same Day matching on this acquisition date.
-    // Per TCGA92/S106A(9), B&B is "subject to" Same Day rule (S105(1)).
-    // Reservation is tracked across all same-day lots for this date+ticker,
-    // so interleaved buys cannot over-reserve.
+    // Per TCGA92/S106A(9), B&B is "subject to" Same Day rule (S105(1)): the
+    // acquisition date's own disposals own min(buy, same-day disposals) of the
+    // buy, whichever earlier disposal is looking at it.
     let reservation_key = (tx.date, tx.ticker.clone());
-    let reservation_remaining = same_day_reservations
+    let same_day_claim = *same_day_reservations
         .entry(reservation_key)
         .or_insert_with(|| same_day_disposal_quantity(tx.date, &tx.ticker, all_transactions));
 
-    let reserve_now = available_before_same_day.min((*reservation_remaining).max(Decimal::ZERO));
-    *reservation_remaining -= reserve_now;
+    let reserve_now = buy_amount.min(same_day_claim.max(Decimal::ZERO));
 
-    available_before_same_day - reserve_now
+    (buy_amount - reserve_now - already_reserved).max(Decimal::ZERO)
 }
 
 fn matched_buy_cost(
